@@ -31,8 +31,24 @@ var (
 	c12PtrB = &c12KS{1}
 )
 
+// pointer keys of different types that hold the SAME address: a struct and its first field, an array and its
+// element 0, two field-less types (which all live at the runtime's zero base).  Keys are distinguished by type as
+// well as value, so these are different keys.
+type c12Outer struct {
+	First c12KS
+	Rest  int
+}
+type c12MarkA struct{}
+type c12MarkB struct{}
+
+var (
+	c12OuterV = &c12Outer{}
+	c12ArrV   = &[2]int{1, 2}
+)
+
 // the key universe: equal values of distinct types, pointers, structs, library keys
 var c12Keys = []interface{}{
+	c12OuterV, &c12OuterV.First, c12ArrV, &c12ArrV[0], &c12MarkA{}, &c12MarkB{},
 	int(1), int64(1), uint8(1), c12Named1(1), c12Named2(1), "1", float64(1), true,
 	c12PtrA, c12PtrB, c12KS{1}, [2]int{1, 1},
 	align.PropertyType, properties.Skipable, rune('1'), "a", "b", "c",
@@ -233,6 +249,9 @@ func (s *c12State) step() (string, string) {
 		key := gen.Pick(r, c12Keys)
 		if r.Chance(1, 2) {
 			key = gen.Pick(r, c12Keys[len(c12Keys)-3:]) // concentrate on a, b, c so chains share keys
+			if r.Chance(1, 4) {
+				key = gen.Pick(r, c12Keys[:6]) // or on the same-address pointer pairs
+			}
 		}
 		return s.set(o, key, s.value(), "")
 	case 7:
@@ -599,7 +618,7 @@ func init() {
 	register(&Prop{
 		ID:    "C12",
 		Level: "exploration",
-		Rule: "phase 0: random histories of 10-80 steps over set / set-nil / repeated set / copy-cell-by-value / copy-column-by-value / copy-row-by-value / set properties on a cell before adding it / capture column handle / grow table (rows wider than the column bookkeeping's capacity) / extend attached row / add separator / render pass / Cell.Update / a property-carrying cell used as the item of a new cell, with an 18-key universe (int(1), int64(1), uint8(1), two named ints, \"1\", float64(1), true, two distinct pointers to equal structs, a struct, an array, align.PropertyType, properties.Skipable, rune, \"a\",\"b\",\"c\"); after EVERY step all (owner, accessor, key) triples are read back and compared with the reference maps. " +
+		Rule: "phase 0: random histories of 10-80 steps over set / set-nil / repeated set / copy-cell-by-value / copy-column-by-value / copy-row-by-value / set properties on a cell before adding it / capture column handle / grow table (rows wider than the column bookkeeping's capacity) / extend attached row / add separator / render pass / Cell.Update / a property-carrying cell used as the item of a new cell, with a 24-key universe (three pairs of pointer keys of different types holding the same address - struct and first field, array and element 0, two field-less types -, int(1), int64(1), uint8(1), two named ints, \"1\", float64(1), true, two distinct pointers to equal structs, a struct, an array, align.PropertyType, properties.Skipable, rune, \"a\",\"b\",\"c\"); after EVERY step all (owner, accessor, key) triples are read back and compared with the reference maps. " +
 			"phase 1 (exhaustive over 5 owners x 1-3 keys): %#v dump after 2 rounds of sets must equal the dump after 52 rounds. phase 2 (solo, shard 0): 200k repeated sets must not raise the live heap by more than 4 MB. " +
 			"Distinct = distinct histories; non-trivial = more than 5 steps.",
 		Assumptions: []string{
